@@ -68,6 +68,22 @@ CHECKS = {
             "Trusted: strace, /proc; needs root + CAP_SYS_CHROOT + ptrace (else in-process fallback, recorded in the "
             "evidence).",
             "DESIGN.md §3 C19"),
+    "C08": ("exploration",
+            "runtime monitoring: Gopher menus of generated UMN directories compared with an independent reference "
+            "reader of link files, .cap files and abstracts written from the manual",
+            "Held on the executions produced: hundreds of generated directories (0-3 link files with 1-4 blocks in any "
+            "line order, .cap overrides, Type=X/-, Host=+/Port=+, positive/negative Numb, sidecar and Abstract= "
+            "abstracts with continuations, three extstrip modes), each menu compared line by line with the reference.",
+            "Trusted: the reference reader vf/checks/c08.py:umn_ref (abstains on constructs the manual leaves open).",
+            "DESIGN.md §3 C08"),
+    "C09": ("exploration",
+            "runtime monitoring: listings of generated gophermaps compared with an independent reference reading "
+            "(Gopher field by field; 8 other protocol views as entry sequences)",
+            "Held on the executions produced: hundreds of generated gophermaps (info/blank/link lines with 1-4 fields, "
+            "absolute/relative/URL: selectors, remote hosts with and without port) at depth 0-3 and as *.gophermap "
+            "files, on a server advertised on a non-default port.",
+            "Trusted: gophermap_ref and the listing readers of vf/crawl.py.",
+            "DESIGN.md §3 C09"),
 }
 
 NOT_YET = "check not built yet in this session (work in progress); see DESIGN.md §3 for the planned monitor"
